@@ -26,7 +26,7 @@ structure CInst where
   deriving Repr, Inhabited
 
 structure State where
-  par : Option Vac.Par := none
+  lat : Option Nat := none                      -- promised latency bound (none: the acceptor is off)
   key : String := ""
   keyVacant : Bool := true
   insts : List CInst := []
@@ -48,31 +48,33 @@ def overdue (p : Vac.Par) (v : Vac.St) (t : Nat) : String :=
     | .idle => s!"no periodic check since {v.lastCheck}: overdue at {Vac.chkDue p v}"
     | .flying c => s!"periodic check issued at {c} not answered within the promised latency"
     | .seen c _ => s!"periodic check issued at {c} not answered within the promised latency"
-  else match v.owed.find? (fun r => decide (t > r + p.J)) with
-    | some r => s!"a periodic check found no record at {r} but no Create followed within the maximum jitter"
+  else match v.owed.find? (fun r => decide (t > r + p.J + p.B)) with
+    | some r => s!"a periodic check found no record at {r} but no Create followed within the maximum jitter (+ one running attempt)"
     | none => match v.crts.find? (fun c => decide (t > c + p.L)) with
       | some c => s!"Create issued at {c} not applied within the promised latency"
       | none => s!"time goes backwards"
 
 /-- Apply a `Vac` action to an instance's vacancy model, if it has one.  A structurally unexpected action (not a
     missed deadline) ends the tracking of that candidate instead of rejecting. -/
-def act (p : Vac.Par) (x : CInst) (a : Vac.Act) : CInst :=
+def act (L : Nat) (x : CInst) (a : Vac.Act) : CInst :=
   match x.vac with
   | none => x
-  | some v => match Vac.step p v a with
+  | some v => match Vac.step (Vac.Par.ofLat L x.cfg.takeover) v a with
     | some v' => { x with vac := some v' }
     | none => { x with vac := none }
 
-def advanceAll (p : Vac.Par) (s : State) (t : Nat) : R State := do
+def advanceAll (L : Nat) (s : State) (t : Nat) : R State := do
   let insts ← s.insts.mapM fun (x : CInst) =>
     match x.vac with
     | none => pure x
-    | some v => match Vac.step p v (.advance t) with
+    | some v =>
+      let p := Vac.Par.ofLat L x.cfg.takeover
+      match Vac.step p v (.advance t) with
       | some v' => pure { x with vac := some v' }
       | none => reject s!"instance {x.cfg.id} (healthy follower): {overdue p v t} (now {t})"
   pure { s with insts := insts }
 
-def broadcast (p : Vac.Par) (s : State) (a : Vac.Act) : State :=
+def broadcast (p : Nat) (s : State) (a : Vac.Act) : State :=
   { s with insts := s.insts.map fun x => act p x a }
 
 /-- (Re)start the tracking of a candidate that is now a healthy follower. -/
@@ -90,9 +92,9 @@ def step (s : State) (te : TEv) : R State :=
   | .end_ => pure { s with ended := true }
   | .inst c => pure { s with insts := s.insts ++ [{ cfg := c }], key := if s.key = "" then c.key else s.key }
   | .hyp _ _ _ _ _ maxLat faultsEnd =>
-    pure { s with par := if maxLat > 0 ∧ faultsEnd = 0 then some (Vac.Par.ofLat maxLat) else none }
+    pure { s with lat := if maxLat > 0 ∧ faultsEnd = 0 then some maxLat else none }
   | ev =>
-    match s.par with
+    match s.lat with
     | none => pure s
     | some p => do
     let t := te.t
@@ -168,7 +170,7 @@ def step (s : State) (te : TEv) : R State :=
           if x.chkOp = some op then
             match x.vac with
             | some v =>
-              (match Vac.step p v (.checkRet (isMiss r)) with
+              (match Vac.step (Vac.Par.ofLat p x.cfg.takeover) v (.checkRet (isMiss r)) with
                | some v' => pure (s.set { x with vac := some v', chkOp := none })
                | none =>
                  match v.chk with
